@@ -49,7 +49,7 @@ fn run_scenario<T: Sc>(out: Option<&mut Out>, sc: &Scenario<T>, from: usize, to:
         }
     };
     out.line(&format!("step build {}", slice_str(&c.init)));
-    emit_tables(out, &c.recipe, &c.init);
+    emit_tables(out, &c.recipe, &c.init, &c.w);
     match guarded(|| {
         let mut o2 = Out::new();
         emit_outputs(&mut o2, "impl", prob.as_ref());
@@ -61,7 +61,7 @@ fn run_scenario<T: Sc>(out: Option<&mut Out>, sc: &Scenario<T>, from: usize, to:
     marks.push(probe.count());
     for alpha in c.history.iter() {
         out.line(&format!("step set {}", slice_str(alpha)));
-        emit_tables(out, &c.recipe, alpha);
+        emit_tables(out, &c.recipe, alpha, &c.w);
         let av = DVector::from_vec(alpha.clone());
         if let Err(m) = guarded(|| prob.set(&av)) {
             out.line(&format!(" impl panic {}", m));
@@ -109,7 +109,7 @@ fn run_scenario<T: Sc>(out: Option<&mut Out>, sc: &Scenario<T>, from: usize, to:
             // parameters (fault window closed for the inspection)
             probe.set_fault(usize::MAX, usize::MAX);
             out.line(&format!("step final {}", slice_str(&alpha)));
-            emit_tables(out, &c.recipe, &alpha);
+            emit_tables(out, &c.recipe, &alpha, &c.w);
             out.line(&format!(" impl params {}", vec_str(&f.problem.params())));
             out.line(&opt_vec(" impl res", &f.problem.res()));
             out.line(&opt_mat(" impl coef", &f.problem.coef()));
